@@ -771,21 +771,24 @@ def tokenize(content: str, lenient: bool = False) -> tuple[list[Token], list[Any
         if fence_span_idx < len(fence_spans) and pos == fence_spans[fence_span_idx][0]:
             span_start, span_end, marker, tag = fence_spans[fence_span_idx]
 
-            # Emit FENCE_OPEN token
-            tokens.append(
-                Token(
-                    TokenType.FENCE_OPEN,
-                    {"fence_marker": marker, "info_tag": tag},
-                    line,
-                    column,
-                )
-            )
-
             # Find content boundaries within the span
             # content_start: position after the first newline (end of opening fence line)
             # content_end: position of the last newline before closing fence line
             first_newline = content.index("\n", span_start)
             content_start = first_newline + 1
+
+            # Emit FENCE_OPEN token. A fence line carries no INDENT token, so its column
+            # (that of the first backtick) is what tells the parser how deep the zone sits.
+            opening_line = content[span_start:first_newline]
+            fence_column = column + len(opening_line) - len(opening_line.lstrip(" "))
+            tokens.append(
+                Token(
+                    TokenType.FENCE_OPEN,
+                    {"fence_marker": marker, "info_tag": tag},
+                    line,
+                    fence_column,
+                )
+            )
 
             # Find the start of the closing fence line
             # The closing fence is the last line of the span
